@@ -823,7 +823,8 @@ fn grid(cfg: &Cfg, level: Level, thorough: bool) -> Grid {
             let one = 1i64 << cfg.p;
             let (lo, hi) = (-16 * one, 16 * one);
             let (left, width, lb) = pwl_geometry(cfg);
-            let bw = width >> lb;
+            // coarse formats: the bucket width can be below one input unit
+            let bw = (width >> lb).max(1);
             let mut marks = vec![];
             let mut b = left - bw;
             while b <= left + width + bw {
@@ -1333,7 +1334,16 @@ pub fn run(r: &Report) -> i32 {
                 tot.error.clone().unwrap_or_default()
             );
         }
-        if let Some(e) = &tot.error {
+        // a piecewise-linear configuration whose buckets are narrower than one unit of the input grid has no
+        // approximation to speak of; the operation may reject it with an error (a panic is still a violation)
+        let sub_unit_buckets = cfg.op.is_pwl() && {
+            let (_, width, lb) = pwl_geometry(cfg);
+            (width >> lb) == 0
+        };
+        if let Some(e) = tot.error.as_ref().filter(|e| sub_unit_buckets && e.starts_with("build error")) {
+            m["rejected"] = json!(e);
+            r.count("configurations_rejected_buckets_below_one_grid_unit", 1);
+        } else if let Some(e) = &tot.error {
             m["error"] = json!(e);
             r.violation(
                 &cfg.signature("evaluation-failed"),
